@@ -25,7 +25,7 @@ ASSUMPTIONS = ["direct calls use float64 C-contiguous arrays as the integrator d
 TOLERANCES = {"floor_renormalise": "1e-12 + 8*n*eps", "stored_vs_last_call": 1e-12, "orientation provenance": "bit-exact"}
 REQUIRED_MONITORS = ["call:frozen_orientation_is_reference", "call:unfrozen_orientation_kept", "call:floor_and_renormalise",
                      "hist:reference_is_start_of_update", "hist:stored_frozen_equals_previous", "hist:stored_floor",
-                     "hist:stored_is_last_gbs_output"]
+                     "hist:stored_is_last_gbs_output", "hist:sliding_uses_mineral_threshold_and_grain_count"]
 
 
 def plan(tier):
@@ -57,6 +57,10 @@ def gen_cases(ctx):
         c["params"]["nucleation_efficiency"] = 5.0
         c["params"]["gbs_threshold"] = float(rng.choice([0.0, 0.3, 0.4, 0.9, rng.uniform(0.05, 0.95)]))
         c["vol"] = str(rng.choice(["uniform", "dirichlet", "dirichlet_sharp", "zeros"]))
+        if i % 2:   # one phase of a two-phase aggregate: the threshold stays chi / n_grains of *this* mineral
+            c["phi"] = float(rng.choice([0.7, 0.3, rng.uniform(0.05, 0.95)]))
+        else:
+            c.pop("phi", None)
         yield c
 
 
@@ -151,6 +155,8 @@ def _history(ctx, pydrex, case):
         start = m.orientations[-2]
         for c in calls:
             call_oracle(ctx, c, case, "solver")
+            ctx.check("hist:sliding_uses_mineral_threshold_and_grain_count", float(c["chi"]) == float(chi) and int(c["n"]) == int(n),
+                      case, update=i, chi_passed=float(c["chi"]), chi=float(chi), n_passed=int(c["n"]), n=int(n))
             ctx.check("hist:reference_is_start_of_update", bool(np.array_equal(c["prev"], start)), case, update=i)
         last = calls[-1]
         mask = last["f_in"] < chi / n
@@ -188,6 +194,7 @@ def _history(ctx, pydrex, case):
     ctx.count("grains_crossed_threshold", frozen_cmp["crossed"])
     ctx.case(case, nontrivial=frozen_cmp["n"] > 0)
     ctx.cls(f"hist:chi={'0' if chi == 0 else '>0'}")
+    ctx.cls("hist:two_phase" if "phi" in case else "hist:single_phase")
     ctx.cls(f"hist:regime={H.regime}" + (f"->{H.regime2}" if H.regime2 is not None else "") + f"/{H.regime_via}")
     if len(ctx.samples) < 4 and frozen_cmp["n"] > 0:
         ctx.sample(case, frozen_grain_comparisons=frozen_cmp["n"], crossed=frozen_cmp["crossed"],
